@@ -200,6 +200,23 @@ def dedupMinors (majors : List MajorA) : List MajorA :=
         let keep := strMin g.2
         { name := keep, altName := (a.minors.find? (·.name == keep)).bind (·.altName), neutral := g.1 } }
 
+/-- One step of the unique-name assignment of `_init_alleles` (gene.py): the group takes the
+prefix `n0` of its smallest member if that is free, else the fallback `fb` (label or full name);
+if that is taken too, the name gets the suffix `:k` with `k` the incremented counter of that
+name.  `used` is the dictionary `used_names` (name, counter). -/
+def nameStep (used : List (String × Nat)) (n0 fb : String) : List (String × Nat) × String :=
+  let n1 := if used.any (·.1 == n0) then fb else n0
+  if used.any (·.1 == n1) then
+    let k := ((used.lookup n1).getD 0) + 1
+    let nn := n1 ++ ":" ++ toString k
+    ((used.map fun e => if e.1 == n1 then (e.1, k) else e) ++ [(nn, 1)], nn)
+  else (used ++ [(n1, 1)], n1)
+
+/-- names given, in order, to groups described by (prefix, fallback) -/
+def assignNames : List (String × String) → List (String × Nat) → List String
+  | [], _ => []
+  | c :: rest, used => (nameStep used c.1 c.2).2 :: assignNames rest (nameStep used c.1 c.2).1
+
 def buildCatalogue (db : RawDb) : Catalogue :=
   let maps := mkMaps db.seq db.start db.endP db.strand db.cigar
   let regs := allRegions db
@@ -268,19 +285,17 @@ def buildCatalogue (db : RawDb) : Catalogue :=
     (((cfgs.find? fun c => c.alleles.contains a.name).map (·.name)).getD "?", sortMuts (a.muts.filter functional))
   let groups : List ((String × List Mut) × List String) :=
     (groupFold majorKey parsed).map fun g => (g.1, g.2.map (·.name))
-  -- unique names
-  let named := groups.foldl (fun (acc : List (String × Nat) × List (((String × List Mut) × List String) × String) × List (String × String) × List CNConf) g =>
-    let (used, out, changed, cf) := acc
+  -- unique names (`assignNames`), then the configurations renamed along
+  let candOf (g : (String × List Mut) × List String) : String × String :=
     let an := strMin g.2
     let alt := ((parsed.find? (·.name == an)).bind (·.altName))
-    let n0 := String.ofList (an.toList.takeWhile (· != '.'))
-    let n1 := if used.any (·.1 == n0) then (match alt with | some x => if x.isEmpty then an else x | none => an) else n0
-    let (used', n2) :=
-      if used.any (·.1 == n1) then
-        let k := ((used.lookup n1).getD 0) + 1
-        let nn := n1 ++ ":" ++ toString k
-        ((used.map fun e => if e.1 == n1 then (e.1, k) else e) ++ [(nn, 1)], nn)
-      else (used ++ [(n1, 1)], n1)
+    (String.ofList (an.toList.takeWhile (· != '.')), match alt with | some x => if x.isEmpty then an else x | none => an)
+  let names := assignNames (groups.map candOf) []
+  let named := (groups.zip names).foldl (fun (acc : List (((String × List Mut) × List String) × String) × List (String × String) × List CNConf) gn =>
+    let (out, changed, cf) := acc
+    let g := gn.1
+    let n2 := gn.2
+    let an := strMin g.2
     let (changed', cf') :=
       if cf.any (·.name == an) && an != n2 then
         (changed ++ [(an, n2)],
@@ -291,8 +306,8 @@ def buildCatalogue (db : RawDb) : Catalogue :=
           | some c => if rest.any (·.name == n2) then rest.map (fun x => if x.name == n2 then c else x) else rest ++ [c]
           | none => rest))
       else (changed, cf)
-    (used', out ++ [(g, n2)], changed', cf')) ([], [], [], cfgs)
-  let (_, namedGroups, changed, cfgsN) := named
+    (out ++ [(g, n2)], changed', cf')) ([], [], cfgs)
+  let (namedGroups, changed, cfgsN) := named
   let majors0 : List MajorA := namedGroups.map fun gn =>
     let key := gn.1.1
     { name := gn.2, cnConfig := (changed.lookup key.1).getD key.1, func := key.2,
